@@ -374,7 +374,8 @@ RdItem(kw, p) ==
     [] kw = KW_nexpr -> MkR(RdSeq(<<"n", "n">>, p, <<>>), LAMBDA v : [k |-> "expr", name |-> v[1], func |-> v[2]])
     [] kw = KW_proto -> MkR(RdSignature(p), LAMBDA v : [k |-> "proto", name |-> v.name, va |-> v.va, res |-> v.res, args |-> v.args])
 
-Keyword(kw, p) ==          \* p: after the keyword token
+TrailLabs(labs) == [i \in 1..Len(labs) |-> [op |-> "label", num |-> labs[i]]]
+Keyword(kw, p, labs) ==    \* p: after the keyword token; labs: labels in front of it (only endfunc may have some: a function may end with labels)
   IF kw = KW_module THEN
      (LET n == RdName(p) IN
       IF ~n.ok THEN Fatal(n.msg) ELSE IF modname # <<>> THEN Fatal("nested module")
@@ -387,7 +388,8 @@ Keyword(kw, p) ==          \* p: after the keyword token
   ELSE IF kw = KW_endfunc THEN
      (IF ~fn.open THEN Fatal("endfunc without func")
       ELSE /\ items' = Append(items, [k |-> "func", name |-> fn.name, va |-> fn.va, res |-> fn.res, args |-> fn.args, locals |-> fn.locals,
-                                      globals |-> fn.globals, insns |-> FixInsns(fn.rawinsns), defs |-> FuncDefs(fn)])
+                                      globals |-> fn.globals, insns |-> FixInsns(fn.rawinsns \o TrailLabs(labs)),
+                                      defs |-> FuncDefs([fn EXCEPT !.rawinsns = @ \o TrailLabs(labs)])])
            /\ fn' = NoFn /\ pos' = p /\ UNCHANGED <<cidx, enc, st, cnt, strs, lex, mods, modname, dat, errs>>)
   ELSE IF kw = KW_local \/ kw = KW_global THEN
      (IF ~fn.open THEN Fatal("local/global outside func")
@@ -441,8 +443,8 @@ Top ==
      IF ~t.ok THEN Fatal(t.msg)
      ELSE IF IsName(t.tag) THEN (LET kw == CName(StrOf(t.v, t.p), labs.p) IN
                                  IF ~kw.ok THEN Fatal(kw.msg)
-                                 ELSE IF labs.v # <<>> THEN Fatal("labels before a keyword at byte " \o ToString(pos))
-                                 ELSE Keyword(kw.v, t.p))
+                                 ELSE IF labs.v # <<>> /\ kw.v # KW_endfunc THEN Fatal("labels before a keyword at byte " \o ToString(pos))
+                                 ELSE Keyword(kw.v, t.p, labs.v))
      ELSE IF IsU(t.tag) THEN Insn(labs.v, t.v, t.p)
      ELSE IF t.tag = TEOF THEN (IF labs.v # <<>> \/ fn.open \/ modname # <<>> THEN Fatal("unfinished func or module")
                                 ELSE /\ st' = "done" /\ pos' = t.p
